@@ -114,6 +114,7 @@ pub mod actix_web {
     pub use super::Error;
     pub use super::error;
     pub use super::web;
+    pub use super::middleware;
 }
 
 // ---------------------------------------------------------------- requests
@@ -198,8 +199,87 @@ pub mod web {
         pub fn to_vec(&self) -> (r: Vec<u8>)
             ensures r@ == self.b@,
         { unimplemented!() }
+        /// bytes::BytesMut::split: returns everything read so far and leaves `self` empty
+        #[verifier::external_body]
+        pub fn split(&mut self) -> (r: BytesMut)
+            ensures r.b@ == old(self).b@, final(self).b@.len() == 0,
+        { unimplemented!() }
+        #[verifier::external_body]
+        pub fn freeze(self) -> (r: Bytes)
+            ensures r.b@ == self.b@,
+        { unimplemented!() }
+    }
+    impl Bytes {
+        #[verifier::external_body]
+        pub fn to_vec(&self) -> (r: Vec<u8>)
+            ensures r@ == self.b@,
+        { unimplemented!() }
+    }
+
+    // ---- application wiring (C20): scopes, middleware, services; only their structure is modelled
+    pub struct ScopeView {
+        pub middlewares: Seq<Seq<(Seq<char>, Seq<char>)>>,   // each DefaultHeaders middleware: the headers it adds
+        pub other_middlewares: nat,                          // anything else wrapped around the scope
+        pub services: nat,
+    }
+    pub struct Scope { pub v: Ghost<ScopeView> }
+    pub struct ServiceConfig { pub scopes: Ghost<Seq<ScopeView>> }
+    pub struct Data<T> { pub inner: T }
+    impl<T> Data<T> {
+        pub fn new(t: T) -> (r: Data<T>) ensures r.inner == t { Data { inner: t } }
+    }
+    #[verifier::external_body]
+    pub fn scope(path: &str) -> (r: Scope)
+        ensures r.v@ == (ScopeView { middlewares: Seq::empty(), other_middlewares: 0, services: 0 }),
+    { unimplemented!() }
+    pub trait Wrappable {
+        /// Some(headers) for a DefaultHeaders middleware, None for any other middleware
+        spec fn default_headers(&self) -> Option<Seq<(Seq<char>, Seq<char>)>>;
+    }
+    impl Scope {
+        #[verifier::external_body]
+        pub fn app_data<T>(self, t: T) -> (r: Scope)
+            ensures r.v@ == self.v@,
+        { unimplemented!() }
+        #[verifier::external_body]
+        pub fn wrap<M: Wrappable>(self, m: M) -> (r: Scope)
+            ensures r.v@ == (match m.default_headers() {
+                Some(h) => ScopeView { middlewares: self.v@.middlewares.push(h), ..self.v@ },
+                None => ScopeView { other_middlewares: self.v@.other_middlewares + 1, ..self.v@ },
+            }),
+        { unimplemented!() }
+        #[verifier::external_body]
+        pub fn service<F>(self, f: F) -> (r: Scope)
+            ensures r.v@ == (ScopeView { services: self.v@.services + 1, ..self.v@ }),
+        { unimplemented!() }
+    }
+    impl ServiceConfig {
+        #[verifier::external_body]
+        pub fn service(&mut self, s: Scope) -> (r: &mut Self)
+            ensures final(self).scopes@ == old(self).scopes@.push(s.v@), *r == *final(self), *final(r) == *final(self),
+        { unimplemented!() }
     }
 }
+pub mod middleware {
+    use super::*;
+    pub struct DefaultHeaders { pub h: Ghost<Seq<(Seq<char>, Seq<char>)>> }
+    impl DefaultHeaders {
+        #[verifier::external_body]
+        pub fn new() -> (r: DefaultHeaders)
+            ensures r.h@.len() == 0,
+        { unimplemented!() }
+        #[verifier::external_body]
+        pub fn add<H: HeaderPair>(self, h: H) -> (r: DefaultHeaders)
+            ensures r.h@ == self.h@.push((h.hname(), h.hvalue())),
+        { unimplemented!() }
+    }
+    impl web::Wrappable for DefaultHeaders {
+        open spec fn default_headers(&self) -> Option<Seq<(Seq<char>, Seq<char>)>> { Some(self.h@) }
+    }
+}
+/// the `index` service generated by #[get("/")] (not modelled beyond being a service)
+#[allow(non_camel_case_types)]
+pub struct index;
 
 /// `?` on a chunk: PayloadError -> actix Error; PayloadError's ResponseError status is 4xx (400 or 413)
 impl VerifFrom<web::PayloadError> for Error {
